@@ -1,1 +1,812 @@
-fn main() {}
+//! C11 harness, aggregator layer: histories through the REAL `MithrilProverService` (prover.rs: blocks and
+//! transactions of the blocks-and-transactions tree) and the REAL `LegacyMithrilProverService`
+//! (prover_legacy.rs) over the REAL sqlite transaction store (`CardanoTransactionRepository` behind the
+//! aggregator's `AggregatorCardanoChainDataRepository`, file database with the real migrations), filled by the
+//! REAL `CardanoChainDataImporter` (blocks, block-range roots of both tables) from a scripted block scanner,
+//! with the REAL `ResourcePool`-backed Merkle-map cache (`compute_cache`).
+//!
+//! K  (a) one request per history (`c11.history`): the chain, imports, signed beacons, cache computations and
+//!        proof requests, versus the Lean model `Prover.run`: per request the outcome class, the items
+//!        reported as certified, the items reported as not certified, and the identity of the Merkle root
+//!        (ordinal of first appearance among the roots signed / proved in the history);
+//!    (b) one request per produced proof (`c11.v2` / `c11.legacy`): the proof as the client receives it,
+//!        replayed through the Lean verifier model (verdict + root, Blake2s in Lean).
+//! S  real vs real, with the harness's own copy of the chain as the oracle: every produced answer verifies
+//!    with the real client-side verifier; every reported-certified item is stored at or below the beacon with
+//!    exactly these fields; every requested item stored at or below the beacon is certified, none of the
+//!    reported non-certified ones is; the certified root is the root the real signable builder signed for the
+//!    beacon the cache was computed for; in the certification flow (sign, cache, ask — same beacon) no
+//!    request is refused.
+#[path = "../../../harness/core/src/common/mkjson.rs"]
+mod mkjson;
+#[allow(dead_code)]
+#[path = "/repo/mithril-aggregator/src/message_adapters/to_cardano_transactions_proof_message.rs"]
+mod legacy_adapter;
+
+use std::collections::{BTreeMap, BTreeSet};
+use std::path::{Path, PathBuf};
+use std::sync::{Arc, Mutex};
+
+use async_trait::async_trait;
+use hutil::{hex, Args, Rng, Sink};
+use mithril_aggregator::database::repository::AggregatorCardanoChainDataRepository;
+use mithril_aggregator::services::{
+    AggregatorChainDataImporter, LegacyMithrilProverService, LegacyProverService, MithrilProverService, ProverService,
+};
+use mithril_cardano_node_chain::chain_importer::{CardanoChainDataImporter, ChainDataImporter};
+use mithril_cardano_node_chain::chain_scanner::{BlockScanner, BlockStreamer, ChainScannedBlocks};
+use mithril_cardano_node_chain::entities::{RawCardanoPoint, ScannedBlock};
+use mithril_common::crypto_helper::{MKTreeStoreInMemory, ProtocolMkProof};
+use mithril_common::entities::{
+    BlockNumber, BlockNumberOffset, CardanoBlock, CardanoTransaction, CardanoTransactionsSnapshot, IntoMKTreeNode,
+    ProtocolMessagePartKey, SignedEntityType, SlotNumber,
+};
+use mithril_common::messages::{
+    CardanoBlockMessagePart, CardanoBlocksProofsMessage, CardanoTransactionMessagePart, CardanoTransactionsProofsMessage,
+    CardanoTransactionsProofsV2Message, MkSetProofMessagePart,
+};
+use mithril_common::signable_builder::{
+    BlockRangeRootRetriever, BlocksTransactionsImporter, CardanoBlocksTransactionsSignableBuilder,
+    CardanoTransactionsSignableBuilder, LegacyBlockRangeRootRetriever, SignableBuilder, SignedEntity, TransactionsImporter,
+};
+use mithril_common::StdResult;
+use mithril_persistence::database::cardano_transaction_migration;
+use mithril_persistence::sqlite::{ConnectionBuilder, ConnectionOptions};
+use mkjson::MP;
+
+type S = MKTreeStoreInMemory;
+
+fn logger() -> slog::Logger {
+    slog::Logger::root(slog::Discard, slog::o!())
+}
+
+// ------------------------------------------------------------------------------------------ the chain
+
+#[derive(Clone, Debug, PartialEq)]
+struct Blk {
+    number: u64,
+    id: u64,
+    slot: u64,
+    txs: Vec<u64>,
+}
+
+fn h64(id: u64) -> String {
+    format!("{:064x}", id)
+}
+fn id_of(h: &str) -> Option<u64> {
+    if h.len() == 64 && h[..48].bytes().all(|c| c == b'0') { u64::from_str_radix(&h[48..], 16).ok() } else { None }
+}
+fn hash_bytes(id: u64) -> Vec<u8> {
+    let mut v = vec![0u8; 24];
+    v.extend_from_slice(&id.to_be_bytes());
+    v
+}
+
+/// the node as the importer sees it: blocks after `from` (by slot) up to `until`, in batches
+struct Scanner {
+    chain: Arc<Mutex<Vec<Blk>>>,
+    batch: usize,
+}
+struct Streamer {
+    batches: std::collections::VecDeque<Vec<ScannedBlock>>,
+    last: Option<RawCardanoPoint>,
+}
+#[async_trait]
+impl BlockScanner for Scanner {
+    async fn scan(&self, from: Option<RawCardanoPoint>, until: BlockNumber) -> StdResult<Box<dyn BlockStreamer>> {
+        let chain = self.chain.lock().unwrap();
+        let from_slot = from.as_ref().map(|p| *p.slot_number);
+        let sel: Vec<&Blk> = chain.iter().filter(|b| from_slot.map(|s| b.slot > s).unwrap_or(true) && b.number <= *until).collect();
+        let last = sel.last().map(|b| RawCardanoPoint::new(SlotNumber(b.slot), hash_bytes(b.id))).or(from);
+        let batches = sel
+            .chunks(self.batch.max(1))
+            .map(|c| c.iter().map(|b| ScannedBlock::new(hash_bytes(b.id), BlockNumber(b.number), SlotNumber(b.slot), b.txs.iter().map(|t| h64(*t)).collect::<Vec<_>>())).collect())
+            .collect();
+        Ok(Box::new(Streamer { batches, last }))
+    }
+}
+#[async_trait]
+impl BlockStreamer for Streamer {
+    async fn poll_next(&mut self) -> StdResult<Option<ChainScannedBlocks>> {
+        Ok(self.batches.pop_front().map(ChainScannedBlocks::RollForwards))
+    }
+    fn last_polled_point(&self) -> Option<RawCardanoPoint> {
+        self.last.clone()
+    }
+}
+
+// ------------------------------------------------------------------------------------------ the node under test
+
+struct Node {
+    rt: Arc<tokio::runtime::Runtime>,
+    db: PathBuf,
+    repo: Arc<AggregatorCardanoChainDataRepository>,
+    importer: Arc<CardanoChainDataImporter>,
+    prover2: Arc<MithrilProverService<S>>,
+    proverl: Arc<LegacyMithrilProverService<S>>,
+}
+
+fn make_template(path: &Path) {
+    let _ = std::fs::remove_file(path);
+    let conn = ConnectionBuilder::open_file(path)
+        .with_options(&[ConnectionOptions::EnableForeignKeys])
+        .with_migrations(cardano_transaction_migration::get_migrations())
+        .build()
+        .unwrap();
+    drop(conn);
+}
+
+impl Node {
+    fn new(rt: Arc<tokio::runtime::Runtime>, template: &Path, db: PathBuf, chain: Arc<Mutex<Vec<Blk>>>, batch: usize, pool2: usize, pooll: usize) -> Node {
+        std::fs::copy(template, &db).unwrap();
+        let pool = ConnectionBuilder::open_file(&db)
+            .with_options(&[ConnectionOptions::EnableForeignKeys])
+            .with_migrations(cardano_transaction_migration::get_migrations())
+            .build_pool(2)
+            .unwrap();
+        let repo = Arc::new(AggregatorCardanoChainDataRepository::new(Arc::new(pool)));
+        let importer = Arc::new(CardanoChainDataImporter::new(Arc::new(Scanner { chain, batch }), repo.clone(), logger()));
+        let prover2 = Arc::new(MithrilProverService::<S>::new(repo.clone(), repo.clone(), pool2, logger()));
+        let proverl = Arc::new(LegacyMithrilProverService::<S>::new(repo.clone(), repo.clone(), pooll, logger()));
+        Node { rt, db, repo, importer, prover2, proverl }
+    }
+    fn import(&self, n: u64) -> Result<(), String> {
+        let imp = self.importer.clone();
+        self.rt.block_on(async move { imp.import(BlockNumber(n)).await }).map_err(|e| format!("{:?}", e))
+    }
+    fn counts(&self) -> (usize, usize, usize) {
+        let repo = self.repo.clone();
+        self.rt.block_on(async move {
+            (repo.get_all_blocks().await.unwrap().len(), repo.get_all_block_range_root().unwrap().len(), repo.get_all_legacy_block_range_root().unwrap().len())
+        })
+    }
+    /// the root the REAL signable builder signs for the beacon (through the real importer, as in production)
+    fn sign2(&self, u: u64) -> Option<String> {
+        let retriever: Arc<dyn BlockRangeRootRetriever<S>> = self.repo.clone();
+        let imp: Arc<dyn ChainDataImporter> = self.importer.clone();
+        let importer: Arc<dyn BlocksTransactionsImporter> = Arc::new(AggregatorChainDataImporter::new(imp));
+        let b = CardanoBlocksTransactionsSignableBuilder::<S>::new(importer, retriever);
+        let r = self.rt.block_on(async move { b.compute_protocol_message((BlockNumber(u), BlockNumberOffset(0))).await });
+        r.ok().and_then(|m| m.get_message_part(&ProtocolMessagePartKey::CardanoBlocksTransactionsMerkleRoot).cloned())
+    }
+    fn signl(&self, u: u64) -> Option<String> {
+        let retriever: Arc<dyn LegacyBlockRangeRootRetriever<S>> = self.repo.clone();
+        let imp: Arc<dyn ChainDataImporter> = self.importer.clone();
+        let importer: Arc<dyn TransactionsImporter> = Arc::new(AggregatorChainDataImporter::new(imp));
+        let b = CardanoTransactionsSignableBuilder::<S>::new(importer, retriever);
+        let r = self.rt.block_on(async move { b.compute_protocol_message(BlockNumber(u)).await });
+        r.ok().and_then(|m| m.get_message_part(&ProtocolMessagePartKey::CardanoTransactionsMerkleRoot).cloned())
+    }
+    fn close(self) {
+        let p = self.db.clone();
+        drop(self);
+        for ext in ["", "-wal", "-shm", "-journal"] {
+            let _ = std::fs::remove_file(format!("{}{}", p.display(), ext));
+        }
+    }
+}
+
+fn err_class(e: &anyhow::Error) -> &'static str {
+    let t = format!("{:?}", e);
+    if std::env::var("C11B_DEBUG").is_ok() { eprintln!("ERR: {}", t.chars().take(700).collect::<String>()); }
+    if t.contains("timed out") { "timeout" }
+    else if t.contains("non-existing key") { "nokey" }
+    else if t.contains("same root") { "root" }
+    else { "other" }
+}
+
+// ------------------------------------------------------------------------------------------ histories
+
+#[derive(Clone, Debug)]
+enum Op {
+    Grow(Vec<Blk>),
+    Imp(u64),
+    Sign2(u64),
+    SignL(u64),
+    Cache2(u64),
+    CacheL(u64),
+    Ptx(u64, Vec<u64>),
+    Pblk(u64, Vec<u64>),
+    Pl(u64, Vec<u64>),
+}
+
+fn op_line(op: &Op) -> String {
+    let l = |v: &Vec<u64>| hutil::list(v);
+    match op {
+        Op::Grow(bs) => format!("(grow,[{}])", bs.iter().map(|b| format!("({},{},{},{})", b.number, b.id, b.slot, l(&b.txs))).collect::<Vec<_>>().join(",")),
+        Op::Imp(n) => format!("(imp,{})", n),
+        Op::Sign2(u) => format!("(sign2,{})", u),
+        Op::SignL(u) => format!("(signl,{})", u),
+        Op::Cache2(u) => format!("(cache2,{})", u),
+        Op::CacheL(u) => format!("(cachel,{})", u),
+        Op::Ptx(u, r) => format!("(ptx,{},{})", u, l(r)),
+        Op::Pblk(u, r) => format!("(pblk,{},{})", u, l(r)),
+        Op::Pl(u, r) => format!("(pl,{},{})", u, l(r)),
+    }
+}
+
+struct Gen<'a> {
+    rng: &'a mut Rng,
+    used: BTreeSet<u64>,
+    next_number: u64,
+}
+impl Gen<'_> {
+    fn fresh(&mut self) -> u64 {
+        loop {
+            let x = (self.rng.u64() >> 2) | 1;
+            if self.used.insert(x) {
+                return x;
+            }
+        }
+    }
+    fn blocks(&mut self, n: u64, max_tx: u64) -> Vec<Blk> {
+        let mut out = vec![];
+        for _ in 0..n {
+            // block numbers are contiguous on Cardano; the store does not require it — an occasional gap
+            if self.rng.chance(1, 14) {
+                self.next_number += self.rng.range(1, 20);
+            }
+            let number = self.next_number;
+            self.next_number += 1;
+            let id = self.fresh();
+            let mut txs: Vec<u64> = (0..self.rng.below(max_tx + 1)).map(|_| self.fresh()).collect();
+            txs.sort();
+            out.push(Blk { number, id, slot: number * 20 + self.rng.below(20), txs });
+        }
+        out
+    }
+}
+
+fn beacon2(rng: &mut Rng, tip: u64) -> u64 {
+    if tip == 0 {
+        return 0;
+    }
+    let base = rng.below(tip + 1);
+    match rng.below(6) {
+        0 => base / 15 * 15,                       // first block of a range
+        1 => (base / 15 * 15 + 14).min(tip),       // last block of a range
+        2 => base / 5 * 5,                         // a signing step smaller than a range
+        3 => tip,
+        _ => base,
+    }
+}
+fn beacon_l(rng: &mut Rng, tip: u64) -> Option<u64> {
+    // legacy beacons are the last block of a range (C17): 15k - 1, and never above the chain's tip
+    // (a target above the tip is C13's business: known finding partial-range-root)
+    let kmax = (tip + 1) / 15;
+    if kmax == 0 { None } else { Some(rng.range(1, kmax) * 15 - 1) }
+}
+
+fn request(rng: &mut Rng, chain: &[Blk], want_tx: bool, u: u64, gen_absent: &mut dyn FnMut() -> u64) -> Vec<u64> {
+    let mut req = vec![];
+    let n = match rng.below(10) { 0 => 0, 1 | 2 => 1, _ => rng.range(2, 7) };
+    let txs: Vec<(u64, u64)> = chain.iter().flat_map(|b| b.txs.iter().map(move |t| (*t, b.number))).collect();
+    let blks: Vec<(u64, u64)> = chain.iter().map(|b| (b.id, b.number)).collect();
+    let (mine, other) = if want_tx { (&txs, &blks) } else { (&blks, &txs) };
+    for _ in 0..n {
+        let below: Vec<&(u64, u64)> = mine.iter().filter(|x| x.1 <= u).collect();
+        let above: Vec<&(u64, u64)> = mine.iter().filter(|x| x.1 > u).collect();
+        match rng.below(12) {
+            0 | 1 if !above.is_empty() => {
+                // above the beacon; biased to the beacon's own range
+                let near: Vec<&&(u64, u64)> = above.iter().filter(|x| x.1 / 15 == u / 15).collect();
+                if !near.is_empty() && rng.chance(2, 3) { req.push(near[rng.below(near.len() as u64) as usize].0) } else { req.push(above[rng.below(above.len() as u64) as usize].0) }
+            }
+            2 => req.push(gen_absent()),
+            3 if !other.is_empty() => req.push(other[rng.below(other.len() as u64) as usize].0), // a hash of the other kind
+            4 if !req.is_empty() => { let d = req[rng.below(req.len() as u64) as usize]; req.push(d) } // duplicate
+            5 if !below.is_empty() => {
+                // in the beacon's own (possibly partial) range
+                let near: Vec<&&(u64, u64)> = below.iter().filter(|x| x.1 / 15 == u / 15).collect();
+                if !near.is_empty() { req.push(near[rng.below(near.len() as u64) as usize].0) } else { req.push(below[rng.below(below.len() as u64) as usize].0) }
+            }
+            _ if !below.is_empty() => req.push(below[rng.below(below.len() as u64) as usize].0),
+            _ => req.push(gen_absent()),
+        }
+    }
+    req
+}
+
+fn history(rng: &mut Rng, thorough: bool, allow_timeout: bool) -> Vec<Op> {
+    let mut g = Gen { rng, used: BTreeSet::new(), next_number: 0 };
+    if g.rng.chance(1, 3) {
+        g.next_number = g.rng.below(40);
+    }
+    let mut ops = vec![];
+    let mut chain: Vec<Blk> = vec![];
+    let max_tx = g.rng.range(1, 3);
+    let first = g.rng.range(8, if thorough { 90 } else { 50 });
+    let bs = g.blocks(first, max_tx);
+    chain.extend(bs.clone());
+    ops.push(Op::Grow(bs));
+    let rounds = g.rng.range(1, if thorough { 5 } else { 3 });
+    let mut cached2: Option<u64> = None;
+    let mut cachedl: Option<u64> = None;
+    if allow_timeout {
+        // a request before any cache computation: the pool is empty (one second of real time each)
+        let tip = chain.last().unwrap().number;
+        ops.push(Op::Imp(tip));
+        let u = beacon2(g.rng, tip);
+        let mut absent = || 0u64;
+        let r = request(&mut Rng::new(g.rng.u64()), &chain, true, u, &mut absent);
+        ops.push(if g.rng.bool() { Op::Ptx(u, r) } else { Op::Pl(u, r) });
+    }
+    for _ in 0..rounds {
+        let tip = chain.last().unwrap().number;
+        // the node may have imported ahead of the beacons (preloading), or not at all
+        match g.rng.below(5) {
+            0 => ops.push(Op::Imp(tip)),
+            1 => ops.push(Op::Imp(g.rng.below(tip + 1))),
+            _ => {}
+        }
+        let u2 = beacon2(g.rng, tip);
+        let ul = beacon_l(g.rng, tip);
+        let flow = g.rng.below(24);
+        // certification flow: the signable is computed (import to the beacon), later the artifact builder computes the cache
+        if flow != 0 {
+            ops.push(Op::Sign2(u2));
+        }
+        if let (true, Some(ul)) = (flow != 1, ul) {
+            ops.push(Op::SignL(ul));
+        }
+        if g.rng.chance(1, 8) {
+            // another signed entity type's beacon makes the node import further before the certificate is issued
+            ops.push(Op::Imp((u2 + g.rng.range(1, 40)).min(tip)));
+        }
+        // (a round without cache computation keeps the previous cache: stale for the new beacon)
+        if flow != 2 || cached2.is_none() {
+            ops.push(Op::Cache2(u2));
+            cached2 = Some(u2);
+        }
+        if let (true, Some(ul)) = (flow != 3 || cachedl.is_none(), ul) {
+            ops.push(Op::CacheL(ul));
+            cachedl = Some(ul);
+        }
+        let nreq = g.rng.range(3, if thorough { 9 } else { 6 });
+        for q in 0..nreq {
+            // between requests the chain grows and the node imports (the next beacon's signable is being prepared)
+            if q > 0 && g.rng.chance(1, 5) {
+                let n = g.rng.range(1, 25);
+                let bs = g.blocks(n, max_tx);
+                chain.extend(bs.clone());
+                ops.push(Op::Grow(bs));
+                if g.rng.chance(2, 3) {
+                    let tip = chain.last().unwrap().number;
+                    ops.push(Op::Imp(tip - g.rng.below(tip.min(20) + 1)));
+                }
+            }
+            let tip = chain.last().unwrap().number;
+            let mut kind = g.rng.below(3);
+            if kind == 2 && cachedl.is_none() { kind = 0; }
+            let cached = if kind == 2 { cachedl } else { cached2 };
+            let mut u = cached.unwrap_or(u2);
+            match g.rng.below(12) {
+                0 => u = u.saturating_sub(g.rng.range(1, 30)),                 // an older beacon than the cache's
+                1 => u = (u + g.rng.range(1, 30)).min(tip + 5),                // a newer one
+                _ => {}
+            }
+            if kind == 2 && g.rng.chance(9, 10) {
+                u = (u + 1) / 15 * 15; // keep legacy beacons at range boundaries (15k - 1) …
+                u = u.max(15) - 1;
+            }
+            let mut fork = Rng::new(g.rng.u64());
+            let mut absent_rng = Rng::new(g.rng.u64());
+            let mut absent = || (absent_rng.u64() >> 2) & !1; // even: never a stored identifier (those are odd)
+            let r = request(&mut fork, &chain, kind != 1, u, &mut absent);
+            ops.push(match kind { 0 => Op::Ptx(u, r), 1 => Op::Pblk(u, r), _ => Op::Pl(u, r) });
+        }
+        // next round: the chain has moved on
+        let n = g.rng.range(3, 40);
+        let bs = g.blocks(n, max_tx);
+        chain.extend(bs.clone());
+        ops.push(Op::Grow(bs));
+    }
+    ops
+}
+
+// ------------------------------------------------------------------------------------------ running one history
+
+#[derive(Default)]
+struct RootIds {
+    seen: Vec<String>,
+}
+impl RootIds {
+    fn id(&mut self, r: &str) -> usize {
+        if let Some(i) = self.seen.iter().position(|x| x == r) {
+            i
+        } else {
+            self.seen.push(r.to_string());
+            self.seen.len() - 1
+        }
+    }
+}
+
+struct Ctx {
+    /// beacon -> (root signed, op index)
+    signed2: BTreeMap<u64, (String, usize)>,
+    signedl: BTreeMap<u64, (String, usize)>,
+    /// (beacon of the cache, op index of the cache computation)
+    cache2: Option<(u64, usize)>,
+    cachel: Option<(u64, usize)>,
+    /// op indices of imports / signables with their targets
+    imports: Vec<(usize, u64)>,
+}
+
+struct Failure {
+    class: &'static str,
+    what: String,
+}
+
+/// certification flow for the beacon: the signable was computed for it, the cache afterwards, and the node did not
+/// import beyond the beacon in between
+/// returns (the beacon lay strictly inside a block range whose root the node had stored when the cache was computed —
+/// the class of the known finding —, the root signed for the beacon)
+fn flow_ok(signed: &BTreeMap<u64, (String, usize)>, cache: Option<(u64, usize)>, imports: &[(usize, u64)], u: u64) -> Option<(bool, String)> {
+    let (c, ci) = cache?;
+    if c != u {
+        return None;
+    }
+    let (root, si) = signed.get(&u)?;
+    if *si > ci {
+        return None;
+    }
+    let inside = u % 15 != 0 && u % 15 != 14 && imports.iter().any(|(i, t)| *i < ci && *t >= u / 15 * 15 + 14);
+    Some((inside, root.clone()))
+}
+
+#[allow(clippy::too_many_arguments)]
+fn run_history(rt: &Arc<tokio::runtime::Runtime>, template: &Path, scratch: &Path, hidx: usize, ops: &[Op], batch: usize, pool2: usize, pooll: usize, sink: &mut Sink, tag: &str, only: Option<usize>) {
+    let chain = Arc::new(Mutex::new(vec![]));
+    let node = Node::new(rt.clone(), template, scratch.join(format!("h{}.sqlite3", hidx)), chain.clone(), batch, pool2, pooll);
+    let mut outs: Vec<String> = vec![];
+    let mut r2 = RootIds::default();
+    let mut rl = RootIds::default();
+    let mut ctx = Ctx { signed2: BTreeMap::new(), signedl: BTreeMap::new(), cache2: None, cachel: None, imports: vec![] };
+    let mut proof_cases: Vec<(String, String, String)> = vec![]; // tag, request, implementation output
+    let mut fails: Vec<(usize, Failure)> = vec![];
+    // the oracle: what the node has been told to store (the importer takes the blocks above the highest stored one
+    // and at or below the target, as the node's chain is at that moment)
+    let mut stored: Vec<Blk> = vec![];
+    let oracle_import = |stored: &mut Vec<Blk>, chain: &Arc<Mutex<Vec<Blk>>>, n: u64| {
+        let hi = stored.last().map(|b| b.number);
+        if hi.map(|h| h < n).unwrap_or(true) {
+            let c = chain.lock().unwrap();
+            let add: Vec<Blk> = c.iter().filter(|b| hi.map(|h| b.number > h).unwrap_or(true) && b.number <= n).cloned().collect();
+            stored.extend(add);
+        }
+    };
+
+    for (oi, op) in ops.iter().enumerate() {
+        match op {
+            Op::Grow(bs) => {
+                chain.lock().unwrap().extend(bs.iter().cloned());
+                outs.push("-".into());
+            }
+            Op::Imp(n) => {
+                let r = node.import(*n);
+                oracle_import(&mut stored, &chain, *n);
+                ctx.imports.push((oi, *n));
+                let (b, a, l) = node.counts();
+                outs.push(if r.is_ok() { format!("s{},{},{}", b, a, l) } else { "err".into() });
+            }
+            Op::Sign2(u) | Op::SignL(u) => {
+                let v2 = matches!(op, Op::Sign2(_));
+                let root = if v2 { node.sign2(*u) } else { node.signl(*u) };
+                oracle_import(&mut stored, &chain, *u);
+                ctx.imports.push((oi, *u));
+                match root {
+                    Some(r) => {
+                        if v2 { outs.push(format!("R{}", r2.id(&r))); ctx.signed2.insert(*u, (r, oi)); } else { outs.push(format!("L{}", rl.id(&r))); ctx.signedl.insert(*u, (r, oi)); }
+                    }
+                    None => {
+                        outs.push("err".into());
+                        if v2 { ctx.signed2.remove(u); } else { ctx.signedl.remove(u); }
+                    }
+                }
+            }
+            Op::Cache2(u) => {
+                let p = node.prover2.clone();
+                let u_ = *u;
+                let r = rt.block_on(async move { p.compute_cache(BlockNumber(u_)).await });
+                outs.push(if r.is_ok() { "ok".into() } else { "err".into() });
+                if r.is_ok() { ctx.cache2 = Some((*u, oi)); }
+            }
+            Op::CacheL(u) => {
+                let p = node.proverl.clone();
+                let u_ = *u;
+                let r = rt.block_on(async move { p.compute_cache(BlockNumber(u_)).await });
+                outs.push(if r.is_ok() { "ok".into() } else { "err".into() });
+                if r.is_ok() { ctx.cachel = Some((*u, oi)); }
+            }
+            Op::Ptx(u, req) | Op::Pblk(u, req) => {
+                let is_tx = matches!(op, Op::Ptx(_, _));
+                let hashes: Vec<String> = req.iter().map(|x| h64(*x)).collect();
+                let offset = BlockNumberOffset(7);
+                // ---- the real service, then the conversion and partition of the HTTP handler ------------------------
+                let p = node.prover2.clone();
+                let (u_, hs) = (*u, hashes.clone());
+                // (certified items as canonical tuples, message-level verification result, proof for Lean)
+                let mut certified: Vec<(u64, u64, u64, u64)> = vec![]; // (key id, block id, number, slot); block id = key for blocks
+                let mut certified_hashes: Vec<String> = vec![];
+                let outcome: String;
+                let mut produced: Option<(String, Vec<Vec<u8>>, MP, Result<(String, Vec<(String, String, u64, u64)>), String>)> = None;
+                if is_tx {
+                    let r = rt.block_on(async move { p.compute_transactions_proofs(BlockNumber(u_), &hs).await });
+                    match r {
+                        Err(e) => outcome = format!("err:{}", err_class(&e)),
+                        Ok(None) => outcome = "none".into(),
+                        Ok(Some(sp)) => {
+                            certified_hashes = sp.transactions_hashes().cloned().collect();
+                            let items: Vec<CardanoTransaction> = sp.transactions().to_vec();
+                            let leaves: Vec<Vec<u8>> = items.iter().map(|t| t.clone().into_mk_tree_node().to_vec()).collect();
+                            let root = sp.merkle_root();
+                            let part: MkSetProofMessagePart<CardanoTransactionMessagePart> = sp.try_into().unwrap();
+                            let mp = MP::from_value(&serde_json::to_value(&*ProtocolMkProof::from_bytes_hex(&part.proof).unwrap()).unwrap());
+                            let nc: Vec<String> = hashes.iter().filter(|h| !certified_hashes.contains(h)).cloned().collect();
+                            let msg = CardanoTransactionsProofsV2Message::new("cert", Some(part), nc, BlockNumber(*u), offset);
+                            let ver = msg.verify().map(|v| (v.certified_merkle_root().to_string(), v.certified_transactions().iter().map(|t| (t.transaction_hash.clone(), t.block_hash.clone(), *t.block_number, *t.slot_number)).collect())).map_err(|e| format!("{:?}", e));
+                            for t in &items {
+                                certified.push((id_of(&t.transaction_hash).unwrap_or(0), id_of(&t.block_hash).unwrap_or(0), *t.block_number, *t.slot_number));
+                            }
+                            outcome = "ok".into();
+                            produced = Some((root, leaves, mp, ver));
+                        }
+                    }
+                } else {
+                    let r = rt.block_on(async move { p.compute_blocks_proofs(BlockNumber(u_), &hs).await });
+                    match r {
+                        Err(e) => outcome = format!("err:{}", err_class(&e)),
+                        Ok(None) => outcome = "none".into(),
+                        Ok(Some(sp)) => {
+                            certified_hashes = sp.blocks_hashes().cloned().collect();
+                            let items: Vec<CardanoBlock> = sp.blocks().to_vec();
+                            let leaves: Vec<Vec<u8>> = items.iter().map(|t| t.clone().into_mk_tree_node().to_vec()).collect();
+                            let root = sp.merkle_root();
+                            let part: MkSetProofMessagePart<CardanoBlockMessagePart> = sp.try_into().unwrap();
+                            let mp = MP::from_value(&serde_json::to_value(&*ProtocolMkProof::from_bytes_hex(&part.proof).unwrap()).unwrap());
+                            let nc: Vec<String> = hashes.iter().filter(|h| !certified_hashes.contains(h)).cloned().collect();
+                            let msg = CardanoBlocksProofsMessage::new("cert", Some(part), nc, BlockNumber(*u), offset);
+                            let ver = msg.verify().map(|v| (v.certified_merkle_root().to_string(), v.certified_blocks().iter().map(|t| (t.block_hash.clone(), t.block_hash.clone(), *t.block_number, *t.slot_number)).collect())).map_err(|e| format!("{:?}", e));
+                            for t in &items {
+                                certified.push((id_of(&t.block_hash).unwrap_or(0), id_of(&t.block_hash).unwrap_or(0), *t.block_number, *t.slot_number));
+                            }
+                            outcome = "ok".into();
+                            produced = Some((root, leaves, mp, ver));
+                        }
+                    }
+                }
+                let non_certified: Vec<u64> = req.iter().filter(|x| !certified_hashes.contains(&h64(**x))).cloned().collect();
+                // ---- canonical output for K ------------------------------------------------------------------------
+                let mut canon = certified.clone();
+                canon.sort_by_key(|c| (c.2, c.0));
+                let items_txt = canon.iter().map(|c| if is_tx { format!("({},{},{},{})", c.0, c.1, c.2, c.3) } else { format!("({},{},{})", c.0, c.2, c.3) }).collect::<Vec<_>>().join(",");
+                match &produced {
+                    Some((root, _, _, _)) => outs.push(format!("ok[{}]nc{}R{}", items_txt, hutil::list(&non_certified), r2.id(root))),
+                    None => outs.push(format!("{}nc{}", outcome, hutil::list(&non_certified))),
+                }
+                // ---- the oracle -------------------------------------------------------------------------------------
+                let mut expected: Vec<(u64, u64, u64, u64)> = vec![];
+                for b in stored.iter().filter(|b| b.number <= *u) {
+                    if is_tx {
+                        for t in &b.txs { if req.contains(t) { expected.push((*t, b.id, b.number, b.slot)); } }
+                    } else if req.contains(&b.id) {
+                        expected.push((b.id, b.id, b.number, b.slot));
+                    }
+                }
+                expected.sort_by_key(|c| (c.2, c.0));
+                let flow = flow_ok(&ctx.signed2, ctx.cache2, &ctx.imports, *u);
+                let what_req = format!("op {} {}", oi, op_line(op));
+                if let Some((root, leaves, mp, ver)) = &produced {
+                    // (K b) the proof through the Lean verifier
+                    let out = match ver { Ok((r, _)) => format!("ok {}", r), Err(e) => if e.starts_with("InvalidSetProof") { "err invalid".into() } else { "err other".to_string() } };
+                    proof_cases.push((if is_tx { "proof-v2-tx".into() } else { "proof-v2-block".into() }, format!("c11.v2 part=([{}],{})", leaves.iter().map(|l| hex(l)).collect::<Vec<_>>().join(","), mp.line()), out));
+                    match ver {
+                        Err(e) => fails.push((oi, Failure { class: "proof-rejected", what: format!("{}: the produced proof is rejected by the client-side verifier: {}", what_req, e.chars().take(160).collect::<String>()) })),
+                        Ok((vroot, vitems)) => {
+                            if vroot != root { fails.push((oi, Failure { class: "proof-rejected", what: format!("{}: verifier root {} is not the proof's {}", what_req, vroot, root) })); }
+                            // every item the CLIENT ends up reporting as certified is stored at or below the beacon, with these very fields
+                            for (h, bh, n, s) in vitems {
+                                let ok = stored.iter().any(|b| b.number == *n && b.slot == *s && b.number <= *u && h64(b.id) == *bh && (if is_tx { id_of(h).map(|t| b.txs.contains(&t)).unwrap_or(false) } else { true }));
+                                if !ok {
+                                    let class = if *n > *u { "certified-above-beacon" } else { "certified-not-stored" };
+                                    fails.push((oi, Failure { class, what: format!("{}: {} {} (block {}, slot {}) is reported as certified but the store holds no such item at or below block {}", what_req, if is_tx { "transaction" } else { "block" }, h, n, s, u) }));
+                                    break;
+                                }
+                            }
+                        }
+                    }
+                    // the certified root is the one signed for the beacon of the cache
+                    if let Some((c, _)) = ctx.cache2 {
+                        match flow_ok(&ctx.signed2, ctx.cache2, &ctx.imports, c) {
+                            Some((further, sroot)) if &sroot != root => {
+                                let class = if further { "C11-beacon-inside-stored-range" } else { "root-not-signed" };
+                                fails.push((oi, Failure { class, what: format!("{}: the proof's Merkle root {} is not the root {} the signable builder signed for beacon {} (the beacon the cache was computed for)", what_req, root, sroot, c) }));
+                            }
+                            _ => {}
+                        }
+                    }
+                }
+                if outcome == "ok" || outcome == "none" {
+                    if canon != expected {
+                        let missing: Vec<_> = expected.iter().filter(|e| !canon.contains(e)).collect();
+                        let extra: Vec<_> = canon.iter().filter(|e| !expected.contains(e)).collect();
+                        let class = if !extra.is_empty() { if extra.iter().any(|e| e.2 > *u) { "certified-above-beacon" } else { "certified-not-stored" } } else { "certified-omitted" };
+                        fails.push((oi, Failure { class, what: format!("{}: certified set differs from (requested ∩ stored at or below {}): missing {:?}, extra {:?}", what_req, u, missing, extra) }));
+                    }
+                    for x in &non_certified {
+                        if expected.iter().any(|e| e.0 == *x) {
+                            fails.push((oi, Failure { class: "certified-omitted", what: format!("{}: {} is stored at or below the beacon but reported as not certified", what_req, x) }));
+                            break;
+                        }
+                    }
+                }
+                if let Some((further, _)) = flow {
+                    if outcome.starts_with("err") {
+                        let class = if further { "C11-beacon-inside-stored-range" } else { "request-refused" };
+                        fails.push((oi, Failure { class, what: format!("{}: the prover fails ({}) although the beacon was signed and its cache computed", what_req, outcome) }));
+                    }
+                }
+            }
+            Op::Pl(u, req) => {
+                let hashes: Vec<String> = req.iter().map(|x| h64(*x)).collect();
+                let p = node.proverl.clone();
+                let (u_, hs) = (*u, hashes.clone());
+                let r = rt.block_on(async move { p.compute_transactions_proofs(BlockNumber(u_), &hs).await });
+                let aligned = (*u + 1) % 15 == 0;
+                let what_req = format!("op {} {}", oi, op_line(op));
+                let flow = flow_ok(&ctx.signedl, ctx.cachel, &ctx.imports, *u);
+                match r {
+                    Err(e) => {
+                        let nc = req.clone();
+                        outs.push(format!("err:{}nc{}", err_class(&e), hutil::list(&nc)));
+                        if flow.is_some() && aligned {
+                            fails.push((oi, Failure { class: "request-refused", what: format!("{}: the legacy prover fails ({}) although the beacon was signed and its cache computed", what_req, err_class(&e)) }));
+                        }
+                    }
+                    Ok(proofs) => {
+                        let certified: Vec<String> = proofs.iter().flat_map(|p| p.transactions_hashes().to_vec()).collect();
+                        let roots: Vec<String> = proofs.iter().map(|p| p.merkle_root()).collect();
+                        // the REAL adapter of the HTTP layer: message parts and the not-certified list
+                        let se = SignedEntity { signed_entity_id: "se".into(), signed_entity_type: SignedEntityType::CardanoTransactions(mithril_common::entities::Epoch(1), BlockNumber(*u)), certificate_id: "cert".into(), artifact: CardanoTransactionsSnapshot::new(roots.first().cloned().unwrap_or_default(), BlockNumber(*u)), created_at: Default::default() };
+                        let msg: CardanoTransactionsProofsMessage = legacy_adapter::ToCardanoTransactionsProofsMessageAdapter::try_adapt(se, proofs, hashes.clone()).unwrap();
+                        let nc: Vec<u64> = msg.non_certified_transactions.iter().map(|h| id_of(h).unwrap_or(0)).collect();
+                        let cert_ids: Vec<u64> = certified.iter().map(|h| id_of(h).unwrap_or(0)).collect();
+                        let expected: Vec<u64> = req.iter().filter(|x| stored.iter().any(|b| b.number <= *u && b.txs.contains(x))).cloned().collect();
+                        if msg.certified_transactions.is_empty() {
+                            outs.push(format!("ok[]nc{}", hutil::list(&nc)));
+                        } else {
+                            outs.push(format!("ok{}nc{}L{}", hutil::list(&cert_ids), hutil::list(&nc), rl.id(&roots[0])));
+                            let ver = msg.verify();
+                            let mut parts_txt = vec![];
+                            for part in &msg.certified_transactions {
+                                let mp = MP::from_value(&serde_json::to_value(&*ProtocolMkProof::from_json_hex(&part.proof).unwrap()).unwrap());
+                                parts_txt.push(format!("([{}],{})", part.transactions_hashes.iter().map(|h| hex(h.as_bytes())).collect::<Vec<_>>().join(","), mp.line()));
+                            }
+                            let out = match &ver {
+                                Ok(v) => { let mut pm = mithril_common::entities::ProtocolMessage::new(); v.fill_protocol_message(&mut pm); format!("ok {}", pm.get_message_part(&ProtocolMessagePartKey::CardanoTransactionsMerkleRoot).unwrap()) }
+                                Err(e) => { let t = format!("{:?}", e); if t.starts_with("InvalidSetProof") { "err invalid".into() } else if t.starts_with("NonMatchingMerkleRoot") { "err nonmatching".into() } else { "err other".to_string() } }
+                            };
+                            proof_cases.push(("proof-legacy".into(), format!("c11.legacy parts=[{}]", parts_txt.join(",")), out));
+                            match &ver {
+                                Err(e) => {
+                                    // duplicated hashes never reach the service through the HTTP route (sorted and de-duplicated there)
+                                    let dup = { let mut s = req.clone(); s.sort(); s.windows(2).any(|w| w[0] == w[1]) };
+                                    let class = if dup { "legacy-duplicate-request" } else { "proof-rejected" };
+                                    fails.push((oi, Failure { class, what: format!("{}: the produced proof is rejected by the client-side verifier: {}", what_req, format!("{:?}", e).chars().take(160).collect::<String>()) }));
+                                }
+                                Ok(v) => {
+                                    for h in v.certified_transactions() {
+                                        let t = id_of(h).unwrap_or(0);
+                                        match stored.iter().find(|b| b.txs.contains(&t)) {
+                                            None => { fails.push((oi, Failure { class: "certified-not-stored", what: format!("{}: transaction {} reported as certified is not in the store", what_req, t) })); break; }
+                                            Some(b) if b.number > *u => {
+                                                // with a beacon inside a range the legacy scheme commits to the whole range (outside the contract: C17 makes legacy beacons range ends)
+                                                if aligned { fails.push((oi, Failure { class: "certified-above-beacon", what: format!("{}: transaction {} of block {} reported as certified for beacon {}", what_req, t, b.number, u) })); break; }
+                                            }
+                                            _ => {}
+                                        }
+                                    }
+                                }
+                            }
+                            if let Some((c, _)) = ctx.cachel {
+                                if let Some((_, sroot)) = flow_ok(&ctx.signedl, ctx.cachel, &ctx.imports, c) {
+                                    if sroot != roots[0] {
+                                        fails.push((oi, Failure { class: "root-not-signed", what: format!("{}: the proof's Merkle root {} is not the root {} signed for beacon {}", what_req, roots[0], sroot, c) }));
+                                    }
+                                }
+                            }
+                        }
+                        if aligned {
+                            if cert_ids != expected {
+                                let class = if cert_ids.iter().any(|c| !expected.contains(c)) { "certified-not-stored" } else { "certified-omitted" };
+                                fails.push((oi, Failure { class, what: format!("{}: certified {:?} but (requested ∩ stored at or below {}) = {:?}", what_req, cert_ids, u, expected) }));
+                            }
+                            let nc_expected: Vec<u64> = req.iter().filter(|x| !expected.contains(x)).cloned().collect();
+                            if nc != nc_expected {
+                                fails.push((oi, Failure { class: "non-certified-wrong", what: format!("{}: reported as not certified {:?}, expected {:?}", what_req, nc, nc_expected) }));
+                            }
+                        }
+                    }
+                }
+            }
+        }
+    }
+    node.close();
+    let req = format!("c11.history ops=[{}]", ops.iter().map(op_line).collect::<Vec<_>>().join(","));
+    let i = sink.case(tag, &req, &outs.join(";"));
+    if only.map(|o| o == i).unwrap_or(true) {
+        for (_, f) in &fails {
+            sink.sfail(i, f.class, &f.what, &req);
+        }
+    }
+    for (t, r, o) in proof_cases {
+        sink.case(&t, &r, &o);
+    }
+}
+
+fn main() {
+    let args = Args::parse();
+    let mut rng = Rng::new(args.seed);
+    let mut sink = Sink::new(&args);
+    let rt = Arc::new(tokio::runtime::Builder::new_multi_thread().worker_threads(2).enable_all().build().unwrap());
+    let scratch = std::env::temp_dir().join(format!("c11b-{}", std::process::id()));
+    let _ = std::fs::remove_dir_all(&scratch);
+    std::fs::create_dir_all(&scratch).unwrap();
+    let template = scratch.join("template.sqlite3");
+    make_template(&template);
+    let nhist = if args.thorough() { 400 } else { 60 };
+    let only = args.only;
+
+    // ---- fixed histories: the flows of the unit tests and of the documentation ------------------------------------------
+    let mk = |n: u64, id: u64, txs: &[u64]| Blk { number: n, id, slot: n * 20, txs: txs.to_vec() };
+    let fixed: Vec<(&str, Vec<Op>)> = vec![
+        ("fixed-partial-last-range", vec![
+            Op::Grow(vec![mk(30, 301, &[3011]), mk(48, 481, &[4811])]),
+            Op::Sign2(48), Op::Cache2(48),
+            Op::Grow(vec![mk(50, 501, &[5011])]), Op::Imp(50),
+            Op::Ptx(48, vec![4811]), Op::Ptx(48, vec![3011]), Op::Pblk(48, vec![481, 501, 301]), Op::Ptx(48, vec![5011]),
+        ]),
+        ("fixed-legacy", vec![
+            Op::Grow((0..40).map(|n| mk(n, 1000 + 2 * n + 1, &[20001 + 2 * n])).collect()),
+            Op::SignL(29), Op::CacheL(29), Op::Pl(29, vec![20001, 20001 + 2 * 29, 20001 + 2 * 30, 4]), Op::Pl(29, vec![]), Op::Pl(29, vec![4]),
+        ]),
+    ];
+
+    // replay (`--only`): every history is run again, the sink keeps the wanted case only
+    let mut hidx = 0usize;
+    for (tag, ops) in &fixed {
+        run_history(&rt, &template, &scratch, hidx, ops, 7, 1, 1, &mut sink, tag, only);
+        hidx += 1;
+    }
+    for h in 0..nhist {
+        let mut hr = Rng::new(rng.u64());
+        let ops = history(&mut hr, args.thorough(), h % 20 == 7);
+        let batch = hr.range(1, 30) as usize;
+        let pool2 = hr.range(1, 3) as usize;
+        let pooll = hr.range(1, 3) as usize;
+        run_history(&rt, &template, &scratch, hidx, &ops, batch, pool2, pooll, &mut sink, if h % 2 == 0 { "history-even" } else { "history-odd" }, only);
+        hidx += 1;
+    }
+    // ---- witness of the known finding, replayed on the real services every run -------------------------------------------
+    {
+        let chain = Arc::new(Mutex::new((0..50u64).map(|n| mk(n, 2 * n + 1, &[100_001 + 2 * n])).collect::<Vec<_>>()));
+        let node = Node::new(rt.clone(), &template, scratch.join("witness.sqlite3"), chain, 10, 1, 1);
+        node.import(49).unwrap(); // the node imported ahead of the beacon: the root of range [30,45[ is stored
+        let signed = node.sign2(35);
+        let p = node.prover2.clone();
+        rt.block_on(async { p.compute_cache(BlockNumber(35)).await }).unwrap();
+        let p = node.prover2.clone();
+        let inside = rt.block_on(async { p.compute_transactions_proofs(BlockNumber(35), &[h64(100_001 + 2 * 33)]).await });
+        let p = node.prover2.clone();
+        let below = rt.block_on(async { p.compute_transactions_proofs(BlockNumber(35), &[h64(100_001 + 2 * 20)]).await });
+        let refused = inside.as_ref().err().map(|e| err_class(e) == "root").unwrap_or(false);
+        let below_ok = below.as_ref().ok().and_then(|o| o.as_ref().map(|p| Some(p.merkle_root()) == signed)).unwrap_or(false);
+        sink.witness("C11-beacon-inside-stored-range", refused && below_ok, &format!(
+            "blocks 0..49 imported, beacon 35 signed (root of the whole range [30,45[ is stored and signed), cache computed for 35: proof of the transaction of block 33 -> {}; of block 20 -> {}",
+            match &inside { Ok(Some(_)) => "proof".to_string(), Ok(None) => "none".into(), Err(e) => format!("refused ({})", err_class(e)) },
+            if below_ok { "proof under the signed root" } else { "no proof under the signed root" }));
+        node.close();
+    }
+    let _ = std::fs::remove_dir_all(&scratch);
+    sink.finish();
+}
